@@ -295,7 +295,7 @@ func main() {
 	out := flag.String("out", "", "scratch directory to create")
 	sched := flag.String("sched", "/verif/sched", "directory holding vsched, vsync, vatomic and the check packages")
 	evdir := flag.String("ev", "/verif/harness/ev", "evidence helper package to copy")
-	pkgs := flag.String("pkgs", "diode,diode/internal/diodes", "comma-separated package directories to rewrite")
+	pkgs := flag.String("pkgs", ".,diode,diode/internal/diodes", "comma-separated package directories to rewrite")
 	flag.Parse()
 	if *out == "" {
 		die("-out required")
